@@ -37,6 +37,9 @@ fn raw(c: &Confirm) -> RawConfirm {
 
 struct ChanState {
     actor: Actor,
+    /// everything sent on this channel, in order (for the weak, racy-mode oracle)
+    all_confirms: Vec<RawConfirm>,
+    all_returns: Vec<(u16, String, Vec<u8>)>,
     /// per listener epoch: confirms sent while it was current (None = no listener / dropped: discarded)
     confirm_epochs: Vec<Vec<RawConfirm>>,
     confirm_current: bool,
@@ -70,6 +73,8 @@ fn case(r: &mut Rng, racy: bool, res: &mut CaseResult) {
         match conn.open_channel(None) {
             Ok(c) => chans.push(ChanState {
                 actor: Actor::spawn(c, &format!("c{}", i)),
+                all_confirms: vec![],
+                all_returns: vec![],
                 confirm_epochs: vec![],
                 confirm_current: false,
                 return_epochs: vec![],
@@ -87,6 +92,7 @@ fn case(r: &mut Rng, racy: bool, res: &mut CaseResult) {
     let mut blocked_rx: Vec<Receiver<ConnectionBlockedNotification>> = Vec::new();
     let mut blocked_epochs: Vec<Vec<Option<String>>> = Vec::new();
     let mut blocked_current = false;
+    let mut all_blocked: Vec<Option<String>> = Vec::new();
     let mut log: Vec<String> = Vec::new();
     let steps = r.usize(8, 50);
     let mut tagc = 0u64;
@@ -154,6 +160,7 @@ fn case(r: &mut Rng, racy: bool, res: &mut CaseResult) {
                     };
                     let c: RawConfirm = (tag, r.chance(1, 3), !r.chance(1, 4));
                     h.inject(confirm_frame(chid, c));
+                    chans[a].all_confirms.push(c);
                     if chans[a].confirm_current {
                         chans[a].confirm_epochs.last_mut().unwrap().push(c);
                     }
@@ -176,6 +183,7 @@ fn case(r: &mut Rng, racy: bool, res: &mut CaseResult) {
                 };
                 let code = r.next() as u16;
                 h.inject(return_frames(chid, code, "NO_ROUTE", &m, &even_partition(m.body.len(), 1000)).concat());
+                chans[a].all_returns.push((code, m.routing_key.clone(), m.body.clone()));
                 if chans[a].return_current {
                     chans[a].return_epochs.last_mut().unwrap().push((code, m.routing_key.clone(), m.body.clone()));
                 }
@@ -196,6 +204,7 @@ fn case(r: &mut Rng, racy: bool, res: &mut CaseResult) {
                 }
                 chans[a].publishes += 1;
                 let c: RawConfirm = (chans[a].publishes, false, true);
+                chans[a].all_confirms.push(c);
                 if chans[a].confirm_current {
                     chans[a].confirm_epochs.last_mut().unwrap().push(c);
                 }
@@ -213,6 +222,7 @@ fn case(r: &mut Rng, racy: bool, res: &mut CaseResult) {
                     Some(reason) => wire::enc_method(0, AMQPClass::Connection(Cn::Blocked(connection::Blocked { reason: reason.clone() }))),
                     None => wire::enc_method(0, AMQPClass::Connection(Cn::Unblocked(connection::Unblocked {}))),
                 });
+                all_blocked.push(note.clone());
                 if blocked_current {
                     blocked_epochs.last_mut().unwrap().push(note);
                 }
@@ -277,12 +287,13 @@ fn case(r: &mut Rng, racy: bool, res: &mut CaseResult) {
                 c.actor.id,
                 &confirms.iter().map(|e| e.iter().map(raw).collect::<Vec<_>>()).collect::<Vec<_>>(),
                 &c.confirm_epochs,
+                &c.all_confirms,
                 racy,
                 res,
                 &log,
             );
             let got_ret: Vec<Vec<(u16, String, Vec<u8>)>> = returns.iter().map(|e| e.iter().map(|r| (r.reply_code, r.routing_key.clone(), r.content.clone())).collect()).collect();
-            check_epochs("return", c.actor.id, &got_ret, &c.return_epochs, racy, res, &log);
+            check_epochs("return", c.actor.id, &got_ret, &c.return_epochs, &c.all_returns, racy, res, &log);
             // a replaced listener is disconnected
             for (i, d) in confirms_disconnected.iter().enumerate() {
                 let is_last = i + 1 == confirms_disconnected.len();
@@ -311,7 +322,7 @@ fn case(r: &mut Rng, racy: bool, res: &mut CaseResult) {
                 .collect()
         })
         .collect();
-    check_epochs("blocked", 0, &got_blocked, &blocked_epochs, racy, res, &log);
+    check_epochs("blocked", 0, &got_blocked, &blocked_epochs, &all_blocked, racy, res, &log);
     for (i, rx) in blocked_rx.iter().enumerate() {
         if i + 1 < blocked_rx.len() && !matches!(rx.try_recv(), Err(crossbeam_channel::TryRecvError::Disconnected)) {
             res.violate("old_listener_still_connected", format!("blocked listener #{} was replaced but is not disconnected", i));
@@ -331,7 +342,7 @@ fn case(r: &mut Rng, racy: bool, res: &mut CaseResult) {
     res.sample = Some(json!({"racy": racy, "channels": nch, "history": log}));
 }
 
-fn check_epochs<T: PartialEq + std::fmt::Debug + Clone>(what: &str, ch: u16, got: &[Vec<T>], want: &[Vec<T>], racy: bool, res: &mut CaseResult, log: &[String]) {
+fn check_epochs<T: PartialEq + std::fmt::Debug + Clone>(what: &str, ch: u16, got: &[Vec<T>], want: &[Vec<T>], all_sent: &[T], racy: bool, res: &mut CaseResult, log: &[String]) {
     if got.len() != want.len() {
         res.violate("listener_epochs", format!("{} on channel {}: {} listener epochs recorded, {} registered", what, ch, got.len(), want.len()));
         return;
@@ -354,24 +365,21 @@ fn check_epochs<T: PartialEq + std::fmt::Debug + Clone>(what: &str, ch: u16, got
             }
         }
     } else {
-        // weak form: concatenated epochs are an order-preserving, duplicate-free
-        // subsequence of everything that was sent while some listener could exist
+        // weak form: the concatenated epochs are an order-preserving subsequence of
+        // everything that was sent on this channel (each sent event used at most once),
+        // i.e. nothing invented, duplicated or reordered
+        let _ = want;
         let g: Vec<T> = got.iter().flatten().cloned().collect();
-        let w: Vec<T> = want.iter().flatten().cloned().collect();
-        // `want` only has events attributed to an epoch by send time; racy runs
-        // may shift events across neighbouring epochs, never invent or reorder them.
         let mut wi = 0;
-        for x in &g {
-            match w[wi..].iter().position(|y| y == x) {
+        for (k, x) in g.iter().enumerate() {
+            match all_sent[wi..].iter().position(|y| y == x) {
                 Some(p) => wi += p + 1,
                 None => {
-                    // it may be an event sent while no listener was current (registration raced)
-                    // -> tolerated only if it exists in the full send log; here we only know
-                    // the attributed ones, so report a real anomaly only for duplicates/reorders
-                    if g.iter().filter(|y| *y == x).count() > 1 && w.iter().filter(|y| *y == x).count() <= 1 {
-                        res.violate("listener_content_differs", format!("{} on channel {}: event {:?} received twice", what, ch, format!("{:?}", x).chars().take(80).collect::<String>()));
-                        return;
-                    }
+                    res.violate(
+                        "listener_content_differs",
+                        format!("{} on channel {}: received event #{} {:?} is not explained by the send order (duplicate, reordered or invented); history {:?}", what, ch, k, format!("{:?}", x).chars().take(80).collect::<String>(), log),
+                    );
+                    return;
                 }
             }
         }
